@@ -458,8 +458,30 @@ def _ends_all(body):
     return False
 
 
+_KNOWN_CACHE = []
+
+
+def has_new_helpers(tree, modname, known):
+    if known is None:
+        return False
+    kn = known.get(modname, set())
+    for st in tree.body:
+        if isinstance(st, ast.FunctionDef) and is_private(st.name) and st.name not in kn:
+            return True
+        if isinstance(st, ast.ClassDef):
+            for m in st.body:
+                if isinstance(m, ast.FunctionDef) and is_private(m.name) and "%s.%s" % (st.name, m.name) not in kn:
+                    return True
+    return False
+
+
 def inline_module(tree, modname, known=None):
-    known = known if known is not None else load_known()
+    if known is None:
+        if not _KNOWN_CACHE:
+            _KNOWN_CACHE.append(load_known())
+        known = _KNOWN_CACHE[0]
+    if not has_new_helpers(tree, modname, known):
+        return tree          # nothing to inline: the common case
     return Inliner(tree, modname, known).run()
 
 
